@@ -11,6 +11,7 @@ import (
 	"runtime"
 	"time"
 
+	"hop.computer/hop/pkg/verifhook"
 	"hop.computer/hop/transport"
 
 	"verif/harness/bub"
@@ -96,6 +97,13 @@ func genC19(r *vh.Runner) {
 	for h := 0; h < pd; h++ {
 		r.Case(fmt.Sprintf("hidden-post-dated/%d", h), map[string]any{"rep": h}, func(c *vh.Case) { hiddenPostDated(r, c, h) })
 	}
+	// (e) hidden requests with chosen timestamps
+	nts := r.Pick(4, 1000)
+	for h := 0; h < nts; h++ {
+		r.Case(fmt.Sprintf("hidden-timestamps/%d", h), map[string]any{"rep": h}, func(c *vh.Case) {
+			c.Bubble(func() { hiddenTimestamps(r, c, h) })
+		})
+	}
 	// (c) hidden server silence
 	hid := r.Pick(6, 10000)
 	for h := 0; h < hid; h++ {
@@ -155,6 +163,67 @@ func hiddenPostDated(r *vh.Runner, c *vh.Case, rep int) {
 			c.Violate("C19:hidden-server-answers:post-dated-request", map[string]any{"timestamp_ahead_of_server_s": ahead.Seconds(), "datagrams_emitted": n})
 		}
 	})
+}
+
+// hiddenTimestamps: real clients build otherwise perfectly valid hidden
+// requests whose sealed timestamp is chosen by the harness (hook on the clock
+// reading the client is about to seal): everything that is not within the last
+// five seconds of the server's clock must be met with silence.
+func hiddenTimestamps(r *vh.Runner, c *vh.Case, rep int) {
+	rng := vh.NewRand(r.Seed, "c19-ts", rep)
+	w, id := newLoggedWorld(func(sc *transport.ServerConfig) { sc.IsHidden = true })
+	defer w.Server.Close()
+	type tsCase struct {
+		name  string
+		ts    func(now int64) int64
+		fresh bool
+	}
+	cases := []tsCase{
+		{"now", func(n int64) int64 { return n }, true},
+		{"10-seconds-old", func(n int64) int64 { return n - 10 }, false},
+		{"one-hour-old", func(n int64) int64 { return n - 3600 }, false},
+		{"one-minute-ahead", func(n int64) int64 { return n + 60 }, false},
+		{"one-hour-ahead", func(n int64) int64 { return n + 3600 }, false},
+		{"zero", func(n int64) int64 { return 0 }, false},
+		{"top-bit-set", func(n int64) int64 { return -1 << 63 }, false},
+		{"top-bit-plus-now", func(n int64) int64 { return (-1 << 63) + n }, false},
+		{"top-bit-plus-now-minus-3", func(n int64) int64 { return (-1 << 63) + n - 3 }, false},
+		{"all-ones", func(n int64) int64 { return -1 }, false},
+		{"max-int64", func(n int64) int64 { return 1<<63 - 1 }, false},
+		{"random-64-bit", func(n int64) int64 { return int64(rng.U64()) }, false},
+	}
+	for _, tc := range cases {
+		prev := verifhook.Install(&verifhook.Handler{Int64: func(point string, v int64) int64 {
+			if point == "transport.hidden-request.timestamp" {
+				return tc.ts(v)
+			}
+			return v
+		}})
+		held, addr, cl := captureFlow(w, id, true, nil, func(mt byte) bool { return mt == 0x08 })
+		verifhook.Install(prev)
+		cl.Close()
+		req := held[0x08]
+		if req == nil {
+			c.Inconclusive("could not capture a hidden request")
+			return
+		}
+		mark := w.Net.LogLen()
+		w.Net.Inject(simnet.Delivery{Data: req, Src: addr, Dst: w.SrvAddr, Tag: "stim:timestamp-" + tc.name})
+		bub.Settle(20 * time.Millisecond)
+		n := len(serverTx(w, mark))
+		r.Count("evaluations", 1)
+		r.Count("hidden_stimuli", 1)
+		r.Count("hidden_request_timestamps:"+tc.name, 1)
+		r.Nontrivial(fmt.Sprintf("hid|ts|%d|%s", rep, tc.name))
+		switch {
+		case tc.fresh && n != 1:
+			c.Inconclusive(fmt.Sprintf("control: request with the current time got %d datagrams", n))
+			return
+		case !tc.fresh && n > 0:
+			c.Violate("C19:hidden-server-answers:request-with-timestamp:"+tc.name, map[string]any{"datagrams_emitted": n})
+			return
+		}
+	}
 }
 
 func newLoggedWorld(tweak func(*transport.ServerConfig)) (*fix.World, *fix.Identity) {
@@ -337,8 +406,15 @@ func cookieBinding(r *vh.Runner, c *vh.Case, rep int) {
 	if ackC := mc[0x03]; ackC != nil {
 		judge(stim{"after-key-rotation", ackC, addrC, 2*time.Minute + time.Duration(1+rng.Intn(60))*time.Second, false})
 	}
+	// and across a later rotation: the server has been up for several minutes
+	// (its key has already rotated at least once) when the cookie is minted
+	md, addrD, cd := captureFlow(w, id, false, nil, hold)
+	cd.Close()
+	if ackD := md[0x03]; ackD != nil {
+		judge(stim{"after-a-later-key-rotation", ackD, addrD, 2*time.Minute + time.Duration(1+rng.Intn(200))*time.Second, false})
+	}
 	if rep == 0 {
-		r.Sample(map[string]any{"kind": "cookie-binding", "stimuli": len(stimuli) + 1, "ack_len": len(ackA)})
+		r.Sample(map[string]any{"kind": "cookie-binding", "stimuli": len(stimuli) + 2, "ack_len": len(ackA)})
 	}
 }
 
